@@ -163,10 +163,14 @@ def finish(ctx, level, rule_text, explanation=None, trusted_base=None, exhaustiv
     known_keys = {(k["property"], k["key"]): k for k in known.get("findings", [])}
     new = []
     seen_known = []
+    per_key = {}
     for f in ctx.findings:
         k = known_keys.get((ctx.prop, f.key))
-        if k is not None:
-            seen_known.append((f, k))
+        per_key[f.key] = per_key.get(f.key, 0) + 1
+        # a known finding suppresses exactly the recorded number of sites with that signature
+        if k is not None and per_key[f.key] <= int(k.get("n", 1)):
+            if per_key[f.key] == 1:
+                seen_known.append((f, k))
         else:
             new.append(f)
     n_ob = len(ctx.obligations)
